@@ -70,6 +70,7 @@ def run(ch, ctx, fault=None):
     k.log_seams = False
     hooks = simrenderable.Hooks(k)
     owned = {}       # token -> RenderData kept by the harness *as the owning caller*
+    released = {}    # token -> iteration RenderData its owner has already finalized
     expect0 = set()  # tokens that must still be un-finalized (caller-owned, not yet released)
     with w:
         ti = w.ti
@@ -149,7 +150,8 @@ def run(ch, ctx, fault=None):
         for i in range(n_ops):
             op = ch.weighted("op", [
                 (2, "str"), (2, "render"), (3, "draw"), (3, "iter"), (2, "from_data"),
-                (1, "init_render_keep"), (8, "next"), (2, "seek"), (2, "close"), (1, "finalize"),
+                (1, "init_render_keep"), (2, "init_render_final"), (1, "from_finalized"),
+                (8, "next"), (2, "seek"), (2, "close"), (1, "finalize"),
                 (2, "drop"), (1, "collect"),
             ])
             t0 = hooks.next_token
@@ -215,6 +217,45 @@ def run(ch, ctx, fault=None):
                     owned[tok] = rd
                     expect0.add(tok)
                     del rd
+                elif op == "init_render_final":
+                    # the extension API used directly: data finalized when the renderer returns
+                    # OR when validation / the renderer fails
+                    too_big = ch.bool("too_big", 0.5)
+                    if too_big:
+                        vt.resize(1, 1)
+                    desc = "%r._init_render_(finalize=True, check_size=True) on %dx%d terminal" % (
+                        r, vt.cols, vt.rows)
+                    try:
+                        r._init_render_(r._render_, None, padding_mod.AlignedPadding(3, 2),
+                                        finalize=True, check_size=True)
+                    finally:
+                        if too_big:
+                            vt.resize(rows, cols)
+                elif op == "from_finalized":
+                    if not released or not r.animated:
+                        continue
+                    tok = ch.pick("released", sorted(released))
+                    rd = released[tok]
+                    if rd.render_cls is not type(r):
+                        continue
+                    fin = ch.bool("finalize", 0.5)
+                    desc = "_from_render_data_(%r, <finalized data #%d>, finalize=%s)" % (r, tok, fin)
+                    try:
+                        it = RenderIterator._from_render_data_(r, rd, None,
+                                                               padding_mod.ExactPadding(),
+                                                               1, finalize=fin)
+                    except ValueError:
+                        desc += " -> rejected"
+                    else:
+                        try:
+                            next(it)
+                        except Exception:
+                            pass
+                        it.close()
+                        raise Violation("finalized_render_data_accepted_for_iteration",
+                                        {"op": desc, "rendered_with_finalized": hooks.used_finalized},
+                                        "from_finalized")
+                    del rd
                 elif op == "next":
                     if not live:
                         continue
@@ -279,6 +320,8 @@ def run(ch, ctx, fault=None):
                     owned[tok].finalize()
                     ctx.probe("double_finalize")
                     must_be_final(tok, "finalized twice", "finalize")
+                    if owned[tok][R.Renderable].iteration:
+                        released[tok] = owned.pop(tok)
                 elif op == "drop":
                     if not live:
                         continue
@@ -308,7 +351,14 @@ def run(ch, ctx, fault=None):
             key.append((desc, type(exc).__name__ if exc is not None else None))
             fault_here = k.fault_done and not fired0
             if exc is not None:
-                expected_validation = op == "draw" and type(exc).__name__ == "RenderSizeOutofRangeError"
+                if op in ("str", "render", "init_render_final"):
+                    # these operations own the data (finalize=True): it must be final when they
+                    # fail, not whenever the traceback happens to be collected (exc is still
+                    # alive here and keeps the frames - and the data - referenced)
+                    for tok in new_tokens(t0):
+                        must_be_final(tok, "operation failed with %s" % type(exc).__name__, op)
+                expected_validation = op in ("draw", "init_render_final") and \
+                    type(exc).__name__ == "RenderSizeOutofRangeError"
                 if expected_validation:
                     ctx.probe("size_validation_failed_in_draw")
                     ctx.nontrivial = True
@@ -327,7 +377,7 @@ def run(ch, ctx, fault=None):
                 del exc
             else:
                 # the operation completed: data created for a one-shot operation is final now
-                if op in ("str", "render", "draw"):
+                if op in ("str", "render", "draw", "init_render_final"):
                     for tok in new_tokens(t0):
                         must_be_final(tok, "operation completed", op)
             check(hooks.used_finalized == 0, "frame_rendered_with_finalized_data",
@@ -341,6 +391,7 @@ def run(ch, ctx, fault=None):
         for tok in sorted(owned):
             owned[tok].finalize()
         owned.clear()
+        released.clear()
         live.clear()
         lv = None
         gc.collect()
